@@ -102,7 +102,8 @@ impl Router {
             let mut subscriptions: Vec<String> = connection.subscriptions.iter().cloned().collect();
             subscriptions.sort();
             connections.push(VerifConnection {
-                id,
+                // the token the connection's link addresses the router with
+                id: super::connection_token(id, self.registration_of.get(&id).copied().unwrap_or(0)),
                 client_id: connection.client_id.clone(),
                 clean: connection.clean,
                 status,
